@@ -22,7 +22,7 @@ VERIF_REPO="$WT" VERIF_EVIDENCE_DIR="$WT/.evidence" timeout -k 5 ${MUT_TIMEOUT:-
 RC=$?
 grep -v "^  detail" "$WT/.out" | grep "VIOLATION\|signature\|HARNESS\|INCONCLUSIVE\| seed=" | cut -c1-230 | head -${LINES_OUT:-5}
 D="$V/seeded/$PROP-$NAME"; mkdir -p "$D"
-[ "$SRC" = "$D" ] || cp "$SRC/patch.diff" "$SRC/demo.py" "$D/"
+[ "$SRC" = "$D" ] || cp "$SRC"/*.py "$SRC/patch.diff" "$D/"
 python3 - "$SRC/meta.json" "$D/meta.json" "$(cat $WT/.rc_clean)" "$(cat $WT/.rc_patched)" "$TESTS" "$CHECK $TIER" "$RC" "$(grep -m3 'signature:' $WT/.out | sed 's/ *signature: //' | tr '\n' ';')" <<'PY'
 import json, sys
 src, dst, rc_clean, rc_patched, tests, check, rc, sigs = sys.argv[1:9]
